@@ -4,15 +4,22 @@ from concurrent.futures import ThreadPoolExecutor
 import common, crashlab
 
 PROP = 'C10'
-LEAN_MODULES = ['XyzProofs.Props.C10', 'XyzProofs.Refine.Harvest', 'XyzProofs.Refine.SamplerSt', 'XyzProofs.Props.C08Grow']
+LEAN_MODULES = ['XyzProofs.Props.C10', 'XyzProofs.Refine.Harvest', 'XyzProofs.Refine.SamplerSt', 'XyzProofs.Props.C08Grow',
+                'XyzProofs.Props.C10Write']
 THEOREMS = ['FS.c10_atomic_trace_safe', 'FS.okEv_safe', 'FS.okEv_agree', 'Conc.c10_reachable_inv', 'Conc.c10_harvest_survives',
             'Conc.c10_direct_mode_counterexamples', 'Crop.c10_reap_error_or_exact', 'Crop.c10_recovery_exact',
             'Crop.reapStream_ok_none', 'Conc.c10_reachable_inv_source', 'Conc.c11_source_mode',
             'Harvest.hvSaveFull_error_keeps_mem', 'Harvest.hvSaveFull_refines', 'Sampler.smSaveFull_error_keeps_mem',
             'Sampler.smSaveFull_spec',
-            'GrowSk.c08_grow_error_no_write', 'GrowSk.c08_grow_one_write']
+            'GrowSk.c08_grow_error_no_write', 'GrowSk.c08_grow_one_write',
+            # on the state skeleton of write_to_disk / read_from_disk, translated on every run (anchors_checkbad.py)
+            'WriteSk.writeToDisk_eq_spec', 'WriteSk.wtd_final_only_replaced', 'WriteSk.wtd_replace_after_close', 'WriteSk.wtd_ok_iff',
+            'WriteSk.wtd_failure_reraised', 'WriteSk.wtd_failure_cleans_up', 'WriteSk.wtd_remove_only_after_failure',
+            'WriteSk.readFromDisk_eq_spec', 'WriteSk.readFromDisk_reads_only',
+            'FS.c10_write_to_disk_atomic', 'FS.c10_write_to_disk_kill_safe',
+            'Conc.c10_publish_agrees', 'Conc.c11_source_mode_sk', 'Conc.c10_reachable_inv_source_sk']
 ANCHORS = ['harvestDefersCleanup', 'samplesDefersCleanup', 'isReady', 'publishViaRename', 'tmpNamePrivate', 'tmpNameHidden',
-           'hvSaveFull', 'smSaveFull', 'growSk']
+           'hvSaveFull', 'smSaveFull', 'growSk', 'writeToDisk', 'readFromDisk']
 RULE = ("for each scenario (raw / Runner / Harvester / Sampler crop: sow, grow_missing, reap-and-sync in one process, with data "
         "already in the farmer's file) the real process is run under an LD_PRELOAD shim that numbers every write-side file "
         "operation (create, write, pwrite, close, rename, unlink, rmdir, mkdir; HDF5 included); one run is traced in full and "
